@@ -364,8 +364,8 @@ def real_thresholds(ctx, big):
 
 
 def run_shard(ctx):
-    n = 120 if ctx.tier == 'quick' else 3000
-    ctx.set_budget(60 if ctx.tier == 'quick' else 2000)
+    n = 120 if ctx.tier == 'quick' else 12000
+    ctx.set_budget(60 if ctx.tier == 'quick' else 1100)
     explore(ctx, strategy(), run_case, n)
     if ctx.stats.violations:
         return
